@@ -49,6 +49,10 @@ mod target_peers;
 #[path = "../../../../verif/c16_engine.rs"]
 pub(crate) mod verif_c16;
 
+#[cfg(litep2p_verif)]
+#[path = "../../../../verif/c15.rs"]
+pub(crate) mod verif_c15;
+
 /// Logging target for the file.
 const LOG_TARGET: &str = "litep2p::ipfs::kademlia::query";
 
